@@ -120,6 +120,19 @@ theorem volatile_dropped (st : St) (root : Nat) :
     rw [← hnm] at hu hk
     simp [hu, hk] at hc
 
+/-- **a failed open leaves nothing volatile behind** (the teardown of `open_dump`): after `openFdFailed`
+    every node below the root that has no persistent node in its subtree is unset. -/
+theorem failed_open_drops_volatile (h : HashFn) (st : St) (dict : Nat) (fdTok : String) (prov : List Provided)
+    (root : Nat) (hr : rootOf (openFd h st dict fdTok prov) dict = some root) :
+    let s := openFd h st dict fdTok prov
+    ∀ m ∈ (openFdFailed h st dict fdTok prov).nodes, isUnder s.nodes root s.next m.id = true →
+      keeps s.nodes s.next m.id = false → m.isset = false := by
+  intro s m hm hu hk
+  have : openFdFailed h st dict fdTok prov = clearVolatile s root := by
+    unfold openFdFailed; simp only [s] at *; rw [hr]
+  rw [this] at hm
+  exact volatile_dropped s root m hm hu hk
+
 /-- **re-open keeps application values.**  A node with a persistent node in
     its subtree (in particular every persistent node) survives `clear_volatile`
     unchanged — value, flags and all — unless a VMCOREINFO blob that went away
